@@ -78,6 +78,18 @@ Theorem C03_canonical_rewritten : forall rc files lk o j b its fin,
   exists c0, new = Some (utf8_encode (render_items (retoken (rc_cfg rc) (render_items its fin) its [] c0) fin)).
 Proof. exact canonical_file_rewritten. Qed.
 
+(* THE NEW FILE IS VALID UTF-8 AGAIN, whatever multi-byte characters the old one holds, and DECODES to the rewritten
+   canonical text (the strict decoder is the inverse of the encoder on scalar values, Utf8Facts.decode_iff; the
+   inserted references are ASCII) -- so the next run can read it *)
+Theorem C03_canonical_rewritten_text : forall rc files lk o j b its fin,
+  files <> [] -> nth_error files j = Some b ->
+  utf8_decode b = Some (render_items its fin) -> items_ok its fin -> o_rfail2 o j = false ->
+  let new := nth_error (w_src (after rc files lk o)) j in
+  exists b', new = Some b' /\
+    (utf8_decode b' = Some (render_items its fin) \/
+     exists c0, utf8_decode b' = Some (render_items (retoken (rc_cfg rc) (render_items its fin) its [] c0) fin)).
+Proof. exact canonical_file_rewritten_text. Qed.
+
 (* ... and `retoken` changes nothing but statements, and those only by `add_ref`: same layout before every item,
    same names, same other characters *)
 Theorem C03_only_statements_differ : forall cfg code its pre ctr,
@@ -129,3 +141,4 @@ Print Assumptions C03_canonical_files.
 Print Assumptions C03_canonical_rewritten.
 Print Assumptions C03_message_style_token.
 Print Assumptions C03_only_statements_differ.
+Print Assumptions C03_canonical_rewritten_text.
